@@ -29,7 +29,9 @@ def saved(k):
 LENS = [("lens", "len(oldBMarks) == K and len(oldTShift) == K and len(oldSCount) == K and len(oldBSCount) == K")]
 SAME_LEN = [("table-lens", "len(state.bMarks) == old(len(state.bMarks)) and len(state.eMarks) == len(state.bMarks) and len(state.tShift) == len(state.bMarks) "
                            "and len(state.sCount) == len(state.bMarks) and len(state.bsCount) == len(state.bMarks)")]
-WF2 = [("WF2", "forall(i, 0, len(state.bMarks), 0 <= state.bMarks[i] and 0 <= state.tShift[i] and state.bMarks[i] + state.tShift[i] <= state.eMarks[i] and state.eMarks[i] <= len(state.src))")]
+WF2 = [("WF2", "forall(i, 0, len(state.bMarks), 0 <= state.bMarks[i] and 0 <= state.tShift[i] and state.bMarks[i] + state.tShift[i] <= state.eMarks[i] and state.eMarks[i] <= len(state.src))"),
+       ("WF5", "forall(i, 0, len(state.bMarks) - 1, implies(state.bMarks[i] + state.tShift[i] < state.eMarks[i], "
+               "not (state.src[state.bMarks[i] + state.tShift[i]] == ' ' or state.src[state.bMarks[i] + state.tShift[i]] == '\\t')))")]
 
 # column invariant of the blank-skipping loops (DESIGN.md Appendix B); L = the line, BM = its new bMarks, B = its entry bsCount
 def blank_loop(L, B):
